@@ -302,7 +302,7 @@ theorem startApp_frame4 (cid : Nat) (blocked : List Nat) (a : App) (s : State) :
     generalize bindAll cid a blocked a.listen s = r at h
     obtain ⟨s', b⟩ := r
     cases b with
-    | true => exact h
+    | true => dsimp only; split; exact h.trans (closeApp_frame4 _ _ _); exact h
     | false => exact h.trans (closeApp_frame4 _ _ _)
   · split
     · exact ev_frame4 _ _
@@ -435,7 +435,11 @@ theorem own_startApp {cid : Nat} {base : List Sock} {names : List Nat} {s : Stat
     generalize bindAll cid a blocked a.listen s = r at h1
     obtain ⟨s', b⟩ := r
     cases b with
-    | true => simpa using h1
+    | true =>
+      dsimp only
+      split
+      · simpa using hclose s' h1
+      · simpa using h1
     | false => simpa using hclose s' h1
   · split
     · simp; exact h.socks_eq rfl
@@ -483,6 +487,9 @@ theorem startApp_ok {cid : Nat} {blocked : List Nat} {a : App} {s s' : State}
     cases b with
     | false => simp at h
     | true =>
+      dsimp only at h
+      split at h
+      · simp at h
       simp at h
       have := h3 rfl
       subst this
@@ -1357,7 +1364,9 @@ theorem startApp_dstor (cid : Nat) (blocked : List Nat) (a : App) (s : State) :
   · have h := bindAll_dstor cid a blocked a.listen s
     generalize bindAll cid a blocked a.listen s = r at h
     obtain ⟨s', b⟩ := r
-    cases b <;> exact h
+    cases b with
+    | true => dsimp only; split <;> exact h
+    | false => exact h
   · split
     · rfl
     · have h := bindAll_dstor cid a blocked a.listen (evA s [.start cid a.name])
